@@ -20,6 +20,7 @@ type SpecEnv struct {
 	pkg     *types.Package
 	nextOld Term
 	depth   int
+	iter    *MapIter
 }
 
 func (env *SpecEnv) fail(f string, a ...any) {
@@ -562,6 +563,18 @@ func (env *SpecEnv) conjuncts(e Expr, prefix string) []namedTerm {
 			r := env.conjuncts(x.Y, prefix)
 			return append(l, r...)
 		}
+		if x.Op == "==>" {
+			// A ==> (B && C)  splits into  A ==> B, A ==> C
+			rs := env.conjuncts(x.Y, prefix)
+			if len(rs) > 1 {
+				a := env.eval(x.X)
+				var out []namedTerm
+				for _, r := range rs {
+					out = append(out, namedTerm{r.name, mkImp(a.T, r.t), x.X.String() + " ==> " + r.src})
+				}
+				return out
+			}
+		}
 	case *ECall:
 		if sf, ok := env.ex.ct.Specs[x.Fn]; ok && !(sf.Opaque && !(env.ex.top != nil && env.ex.top.Reveals[sf.Name]) && !env.ex.revealAll) {
 			if b, isBin := sf.Body.(*EBin); isBin && b.Op == "&&" {
@@ -648,6 +661,28 @@ func (env *SpecEnv) call(e *ECall) *Val {
 		return env.eval(e.Args[i])
 	}
 	switch e.Fn {
+	case "iterkey":
+		// iterkey(q): the key delivered at position q by the map iteration of this function
+		if env.iter == nil {
+			env.fail("iterkey outside a loop over a map")
+		}
+		k := mkSelect(env.iter.Inv, arg(0).T)
+		if sortOfType(env.iter.MTyp.Key()) == SString {
+			return scalar(Term{"(ks " + k.S + ")", SString}, env.iter.MTyp.Key())
+		}
+		return scalar(k, env.iter.MTyp.Key())
+	case "iterord":
+		// iterord(k): the position at which key k is delivered
+		if env.iter == nil {
+			env.fail("iterord outside a loop over a map")
+		}
+		return scalar(mkSelect(env.iter.Ord, mapKeyTerm(arg(0).T)), specIntT)
+	case "iterdom":
+		// iterdom(k): k was in the map when the iteration started
+		if env.iter == nil {
+			env.fail("iterdom outside a loop over a map")
+		}
+		return scalar(mkSelect(env.iter.Dom, mapKeyTerm(arg(0).T)), specBoolT)
 	case "panicval":
 		// the value of the most recent panic on this path (after recover() it is the recovered value)
 		if env.st == nil || env.st.panicVal.S == "" {
@@ -737,6 +772,9 @@ func (env *SpecEnv) call(e *ECall) *Val {
 	case "at":
 		return scalar(app(SInt, "str.to_code", app(SString, "str.at", arg(0).T, arg(1).T)), specIntT)
 	case "chr":
+		if n, ok := literalInt(arg(0).T); ok && n >= 0 && n < 256 {
+			return scalar(strLit(string([]byte{byte(n)})), specStrT)
+		}
 		return scalar(app(SString, "str.from_code", arg(0).T), specStrT)
 	case "replaceall":
 		return scalar(app(SString, "str.replace_all", arg(0).T, arg(1).T, arg(2).T), specStrT)
